@@ -9,5 +9,15 @@ claim("C19",
   "Not decided: absence of lost wake-ups over all interleavings. Trusted: go/ssa's control-flow graph, the anchor table in rules_c19.go.",
   "custom SSA rules: channel-capacity census, must-pass-through and guard queries", "DESIGN.md §2 C19")
 
-for pid in ["C01","C02","C03","C04","C05","C06","C07","C08","C09","C10","C11","C12","C13","C14","C15","C16","C17","C18"]:
+claim("C03",
+  "Decides the shape that makes reply and timeout mutually exclusive and one-shot: (D1) ackHandler.call, the timer closure and the per-event sendAck closures each test the other side's flag and set their own in ONE critical section, the loser cannot reach the callback, the callback runs outside the lock, and the flags are touched nowhere else without the mutex; (D2) onAck looks up and deletes the entry in one acksMu region, calls only the found entry, deletes before calling; Emit puts the id returned by registerAckHandler into header.ID and forwards its timeout; (D3) with a timeout the handler is built by newAckHandlerWithTimeout, whose single timer goroutine waits exactly `timeout`, passes ErrAckTimeout, calls timeoutFunc, which deletes the entry under acksMu; no delete-inside-range (the purge) and no lock left held on that path; (D4) lock pairing / no panic under a non-deferred Lock on acksMu, sendBufferMu, ackHandler.mu. Each is necessary: breaking it yields a double or a missing callback, or a wedged socket, under some schedule.",
+  "Not decided: which reply arrives, timer vs reply in real time, equality of reply arguments, behaviour of reflect.Call. Trusted: go/ssa CFG, anchor table in rules_c03.go.",
+  "custom SSA rules: lockset (must-hold) + same-critical-section, path-pruned reachability, value wiring; AST delete-inside-range rule", "DESIGN.md §2 C03")
+
+claim("C18",
+  "Decides: (D1) no delete-inside-range in the handler stores and the exported On/Once/Off files (the shape that made Off(a,b) panic); (D2) every exported Off<X>(f...) reaches a store whose equality is func identity, not the address of a per-call copy; (D3) OffAll clears every registry field of its receiver (4 types, all fields enumerated from the struct); (D4) getAll reads and clears the once-list in one critical section on every path, returns all lists and writes no persistent list; (D5) the no-handler branch of off()/OffEvent clears both lists and is keyed on emptiness, not nil-ness; (D6) On appends to the persistent list and Once to the once-list under the mutex. Each clause is necessary for 'On every time, Once at most once, Off exactly what it names'.",
+  "Not decided: equivalence with a reference model over all call sequences; concurrency beyond the critical-section shape. Trusted: go/ssa, go/types, anchor table in rules_c18.go.",
+  "custom AST + SSA rules: delete-inside-range pattern (with positive control), struct-field exhaustiveness, lockset/same-region, pruned reachability", "DESIGN.md §2 C18")
+
+for pid in ["C01","C02","C04","C05","C06","C07","C08","C09","C10","C11","C12","C13","C14","C15","C16","C17"]:
     na(pid, NOT_YET)
